@@ -55,6 +55,37 @@ CLAIMED = {
             "ckd (covered by C01). One known finding (D-C17b, Bip32Path.parse drops components after the fifth) is "
             "pinned by the repository's own test and is listed in known_findings.json.",
             "DESIGN.md section 5 C17"),
+    "C01": ("parametric TLA+ Bip32 spec: TLC toy-scale model with TLC-chosen PRF (all parents x all IL) + TLC trace "
+            "validation at real scale with oracle tables and chosen-PRF corner cases",
+            "Bip32.tla defines CKDpriv/master/path folding over byte-sequence scalars with the primitives as operator "
+            "constants. MC_Bip32 instantiates it with 1-byte scalars, order 13 and a toy group and lets TLC choose every "
+            "PRF answer: ChildInRange, layout, depth/index/fingerprint hold for every (parent, IL, index). Trace_Keys "
+            "instantiates the SAME operators with 32-byte scalars and the secp256k1 order and re-derives key, chain code, "
+            "metadata and both Base58Check strings of every recorded ckd/derive_path/master_key call, including "
+            "substituted-HMAC cases (IL + k = n-1, n+1, wrap-around, leading-zero children) and the observed PRF query.",
+            "SHA-512/HMAC, RIPEMD160/SHA256 and k*G are oracle tables from hashlib and the harness's own secp256k1; the "
+            "bounded model is a different (small) instance of the same operator text.",
+            "DESIGN.md section 5 C01"),
+    "C02": ("parametric TLA+ Bip32 spec: Agree/RefuseHardened invariants in the toy group (TLC exhaustive) + TLC trace "
+            "validation of private-vs-public derivations at real scale",
+            "MC_Bip32 proves, in a group of order 13 with TLC-chosen PRF, that public-only derivation equals private "
+            "derivation with the private part dropped (incl. agreement of the invalid outcome), that hardened public "
+            "derivation is refused and that no public node carries a scalar. Trace_Keys validates recorded private and "
+            "public walks along the same normal paths (public twin parsed from the xpub string, roots at depth 0..255, "
+            "scalars near n and with leading zeros), single public steps and refusal attempts for hardened indexes.",
+            "The homomorphism identity at real scale is checked per observed step against independently computed point "
+            "sums, not proved.",
+            "DESIGN.md section 5 C02"),
+    "C18": ("TLA+ Bip32 spec Invalid outcomes: TLC toy-scale model where invalid PRF answers are the common case + TLC "
+            "trace validation of chosen-PRF fault injection on the real code",
+            "In MC_Bip32 243 of 256 left halves are >= N and every parent has an IL with zero child / infinity, so "
+            "NoInvalidNode, InvalidIsError, ValidSucceeds and FailedAttemptLeavesParent are checked on every such "
+            "transition. On the real code the HMAC is substituted at hmac.new/hmac.digest with IL in {n, n+1, 2^256-1, "
+            "n - k_par} (private, public, master) and with valid-but-extreme values; Trace_Keys demands an exception for "
+            "the invalid classes, success for the extreme-valid ones, and, in sequences on shared objects, that a failed "
+            "attempt leaves parent and siblings unchanged.",
+            "The BIP85 wif/xprv validity branch is covered by C12's chosen-PRF events; IL = 0 on the public side is not judged.",
+            "DESIGN.md section 5 C18"),
 }
 
 ALL = ["C%02d" % i for i in range(1, 21)]
